@@ -230,8 +230,14 @@ LOOP:
 			db.flushImmutable(imt)
 			db.manager.checkAndCompact()
 
+			// drop the memtable that was flushed (the oldest one), the newer ones are still only in memory
 			db.mu.Lock()
-			db.immutables.Remove(db.immutables.Back())
+			for e := db.immutables.Front(); e != nil; e = e.Next() {
+				if e.Value.(*memtable) == imt {
+					db.immutables.Remove(e)
+					break
+				}
+			}
 			db.mu.Unlock()
 
 			if closed && len(db.flushC) == 0 {
